@@ -46,6 +46,8 @@ pub struct Point<'a> {
     pub in_op: &'a [bool],
     /// This point is a compare_exchange_weak of the current thread.
     pub cas_weak: bool,
+    /// Threads that have terminated.
+    pub gone: &'a [bool],
 }
 
 pub trait Strategy: Send {
@@ -148,7 +150,9 @@ impl Inner {
         }
         let cur_runnable = runnable.contains(&cur);
         let mut strategy = self.strategy.take().expect("strategy");
+        let gone: Vec<bool> = self.states.iter().map(|s| *s == TState::Gone).collect();
         let p = Point {
+            gone: &gone,
             cur,
             cur_runnable,
             runnable: &runnable,
